@@ -567,6 +567,29 @@ def check_tebd_tables(prog, rep):
                 if p == Poly.sym(var) * delta and app:
                     ok = True
     if not ok:
+        # comprehension form: [[.. _calc_U_bond(i, t * delta_t, ..) ..] for t in steps(order)]
+        for lc in ast.walk(f):
+            if isinstance(lc, ast.ListComp) and len(lc.generators) == 1 and isinstance(
+                    lc.generators[0].iter, ast.Call) and dotted(
+                        lc.generators[0].iter.func) == 'self.suzuki_trotter_time_steps' and \
+                    [unparse(a) for a in lc.generators[0].iter.args] == [pm[1]]:
+                var = unparse(lc.generators[0].target)
+                st = lc
+                while not isinstance(st, ast.stmt):
+                    st = parent(st)
+                published = isinstance(st, ast.Assign) and (
+                    unparse(st.targets[0]) == 'self._U' or any(
+                        isinstance(a, ast.Assign) and [unparse(t) for t in a.targets] ==
+                        ['self._U'] and unparse(a.value) == unparse(st.targets[0])
+                        for a in ast.walk(f)))
+                for c in ast.walk(lc.elt):
+                    if isinstance(c, ast.Call) and dotted(c.func) == 'self._calc_U_bond':
+                        try:
+                            if eval_poly(c.args[1], {}) == Poly.sym(var) * delta and published:
+                                ok = True
+                        except (NotPoly, IndexError):
+                            pass
+    if not ok:
         rep.violation('TEBD-U-index', m, 'TEBDEngine.calc_U', 'U-table',
                       'self._U must be built by appending, for each entry t of '
                       'suzuki_trotter_time_steps(order) in order, gates for time t*delta_t', f.lineno)
